@@ -68,6 +68,7 @@ type mrow struct {
 type cacheT struct {
 	rows  []mrow
 	fu    bool // held for update (exclusive lock until the end of the transaction)
+	nh    bool // first loaded with the import attribute no_header: columns c1, c2 and the header line is the first record
 	dirty bool // own changes applied
 }
 
@@ -113,17 +114,32 @@ func sameRows(a, b []mrow) bool {
 //
 //	L  loaded from the file        C  cache, equal to the file
 //	S  cache, file changed since   H  held copy      Hd held copy with own changes
-func (m *model) plainRead(t int) ([]mrow, string) {
+func (m *model) plainRead(t int) ([]mrow, string) { return m.plainReadNH(t, false) }
+
+var hdrRow = mrow{id: "id", v: "v"}
+
+// view: the file as a table under the import attributes of its first load in the transaction ("A format specified
+// function effects the first loading in a transaction. After the second loading, the specifications in the format
+// specified function are ignored"; "The table attributes that were determined when loading will be used to updating").
+func (m *model) view(t int, nh bool) []mrow {
+	if nh {
+		return append([]mrow{hdrRow}, m.F[t]...)
+	}
+	return clone(m.F[t])
+}
+
+// plainReadNH: nh = the statement asks for no_header; it only matters when the statement loads the table.
+func (m *model) plainReadNH(t int, nh bool) ([]mrow, string) {
 	c := m.C[t]
 	switch {
 	case c == nil:
-		m.C[t] = &cacheT{rows: clone(m.F[t])}
+		m.C[t] = &cacheT{rows: m.view(t, nh), nh: nh}
 		return m.C[t].rows, "L"
 	case c.fu && c.dirty:
 		return c.rows, "Hd"
 	case c.fu:
 		return c.rows, "H"
-	case sameRows(c.rows, m.F[t]):
+	case sameRows(c.rows, m.view(t, c.nh)):
 		return c.rows, "C"
 	}
 	return c.rows, "S"
@@ -134,15 +150,18 @@ func (m *model) plainRead(t int) ([]mrow, string) {
 // file will be reloaded"; exclusive locks remain until the end of the transaction.
 //
 //	U  loaded for update   R  reloaded (file unchanged)   Rx reloaded (file changed meanwhile)   H  already held
-func (m *model) updAccess(t int) string {
+func (m *model) updAccess(t int) string { return m.updAccessNH(t, false) }
+
+func (m *model) updAccessNH(t int, nh bool) string {
 	c := m.C[t]
 	switch {
 	case c == nil:
-		m.C[t] = &cacheT{rows: clone(m.F[t]), fu: true}
+		m.C[t] = &cacheT{rows: m.view(t, nh), fu: true, nh: nh}
 		return "U"
 	case !c.fu:
-		changed := !sameRows(c.rows, m.F[t])
-		m.C[t] = &cacheT{rows: clone(m.F[t]), fu: true}
+		// the reload keeps the attributes of the first load
+		changed := !sameRows(c.rows, m.view(t, c.nh))
+		m.C[t] = &cacheT{rows: m.view(t, c.nh), fu: true, nh: c.nh}
 		if changed {
 			return "Rx"
 		}
@@ -225,7 +244,12 @@ func (m *model) anyForeign(s stepT) bool {
 func (m *model) commit() (wrote bool) {
 	for t, c := range m.C {
 		if c != nil && c.fu && c.dirty {
-			m.F[t] = clone(c.rows)
+			// a table loaded with no_header is written without a header line: its first record is the old header line
+			rows := c.rows
+			if c.nh && len(rows) > 0 && rows[0] == hdrRow {
+				rows = rows[1:]
+			}
+			m.F[t] = clone(rows)
 			wrote = true
 		}
 		m.C[t] = nil
@@ -244,9 +268,14 @@ func (m *model) rollback() (dirty bool) {
 }
 
 func idOf(r mrow) int {
-	n, _ := strconv.Atoi(r.id)
+	n, err := strconv.Atoi(r.id)
+	if err != nil {
+		return -1 // the header line as a record
+	}
 	return n
 }
+
+func (m *model) nhCached(t int) bool { return m.C[t] != nil && m.C[t].nh }
 
 // edit applies one simple change: ins appends a row, upd/del address the rows with the id, updall all rows.
 func edit(rows []mrow, kind string, id int, v string, null bool) []mrow {
@@ -260,14 +289,14 @@ func edit(rows []mrow, kind string, id int, v string, null bool) []mrow {
 		out = append(out, mrow{id: strconv.Itoa(id), v: v, null: null})
 	case "upd", "updall":
 		for _, r := range rows {
-			if kind == "updall" || idOf(r) == id {
+			if kind == "updall" || (id >= 0 && idOf(r) == id) {
 				r.v, r.null = v, null
 			}
 			out = append(out, r)
 		}
 	case "del":
 		for _, r := range rows {
-			if idOf(r) != id {
+			if id < 0 || idOf(r) != id {
 				out = append(out, r)
 			}
 		}
@@ -395,6 +424,8 @@ var kinds = []string{"sel", "sfu", "dml", "insfrom", "commit", "rollback", "b", 
 // search goes on; the check "failed_update_access" generates it on purpose.
 const avoidFailedUpdateAccessOnCachedTable = false
 
+var sfuForms = []int{0, 1, 2, 5}
+
 var joinForms = []string{"comma", "cross", "inner", "full", "union", "notin"}
 
 func genCase(t *rapid.T) histCase { return genHist(t, false, false) }
@@ -430,7 +461,9 @@ func genHist(t *rapid.T, bproc, aimShape bool) histCase {
 		var ids []int
 		for _, rs := range rows {
 			for _, r := range rs {
-				ids = append(ids, idOf(r))
+				if idOf(r) >= 0 {
+					ids = append(ids, idOf(r))
+				}
 			}
 		}
 		if len(ids) > 0 && fw.Pct(t, label+"_hit", 88) {
@@ -458,8 +491,18 @@ func genHist(t *rapid.T, bproc, aimShape bool) histCase {
 			}
 		}
 		avoidShape := avoidFailedUpdateAccessOnCachedTable && !aimShape
+		attrT := -1 // a table A has cached from a plain SELECT with no_header, nobody else holding it
+		for k := 0; k < nt; k++ {
+			if m.nhCached(k) && !m.C[k].fu && m.H2[k] == nil {
+				attrT = k
+			}
+		}
 		kind := ""
-		if shapeT >= 0 && !avoidShape && ((aimShape && fw.Pct(t, "shape", 70)) || (!aimShape && fw.Pct(t, "shape", 30))) {
+		if attrT >= 0 && fw.Pct(t, "attr_upgrade", 45) {
+			// the first data-changing access re-reads the file: with the attributes of the first load?
+			kind = []string{"dml", "dml", "sfu"}[fw.Uniform(t, "attr_kind", 3)]
+			s.T = attrT
+		} else if shapeT >= 0 && !avoidShape && ((aimShape && fw.Pct(t, "shape", 70)) || (!aimShape && fw.Pct(t, "shape", 30))) {
 			kind = []string{"dml", "dml", "sfu"}[fw.Uniform(t, "shape_kind", 3)]
 			s.T = shapeT
 		} else if probe >= 0 && fw.Pct(t, "probe", 40) {
@@ -533,6 +576,10 @@ func genHist(t *rapid.T, bproc, aimShape bool) histCase {
 		if (kind == "msel" || kind == "upd2" || kind == "insfrom") && m.b2Alive() {
 			kind = "sel"
 		}
+		// tables loaded with no_header have other column names: the two-table statements keep away from them
+		if (kind == "msel" || kind == "upd2" || kind == "insfrom") && (m.nhCached(0) || m.nhCached(1)) {
+			kind = "sel"
+		}
 		if kind == "sel" || kind == "sfu" || kind == "dml" {
 			fu := kind != "sel"
 			if fu && avoidShape && m.blocked(s.T, true) && m.C[s.T] != nil {
@@ -542,9 +589,9 @@ func genHist(t *rapid.T, bproc, aimShape bool) histCase {
 				// A's statement must fail with the lock wait timeout; nothing changes
 				switch kind {
 				case "sel":
-					s.K, s.Form = "sel", fw.Uniform(t, "form", 5)
+					s.K, s.Form = "sel", fw.Uniform(t, "form", 7)
 				case "sfu":
-					s.K, s.Form = "sfu", fw.Uniform(t, "form", 3)
+					s.K, s.Form = "sfu", sfuForms[fw.Uniform(t, "form", len(sfuForms))]
 				default:
 					s.K = []string{"ins", "upd", "del"}[fw.Weighted(t, "dml", []int{35, 45, 20})]
 					s.Form = fw.Uniform(t, "form", 3)
@@ -638,13 +685,13 @@ func genHist(t *rapid.T, bproc, aimShape bool) histCase {
 			}
 		case "sel":
 			s.K = "sel"
-			s.Form = fw.Uniform(t, "form", 5)
-			m.plainRead(s.T)
+			s.Form = fw.Uniform(t, "form", 7)
+			m.plainReadNH(s.T, s.Form >= 5)
 			readInTxn[s.T] = true
 		case "sfu":
 			s.K = "sfu"
-			s.Form = fw.Uniform(t, "form", 3)
-			m.updAccess(s.T)
+			s.Form = sfuForms[fw.Uniform(t, "form", len(sfuForms))]
+			m.updAccessNH(s.T, s.Form == 5)
 			readInTxn[s.T] = true
 		case "dml":
 			s.K = []string{"ins", "upd", "del"}[fw.Weighted(t, "dml", []int{35, 45, 20})]
@@ -722,6 +769,8 @@ func tableRef(dir string, t, form int) string {
 		return tableName(t) + " x"
 	case 4:
 		return "CSV(',', `" + tableName(t) + ".csv`)"
+	case 5:
+		return "CSV(',', `" + tableName(t) + ".csv`, 'UTF8', TRUE)" // no_header
 	}
 	return tableName(t)
 }
@@ -766,15 +815,49 @@ func sqlVal(tag string, null bool) string {
 }
 
 func changeSQL(ref, kind string, id int, tag string, null bool) string {
+	return changeSQLCols(ref, kind, id, tag, null, false)
+}
+
+// colNames: a table loaded with no_header has the automatic column names.
+func colNames(nh bool) (string, string) {
+	if nh {
+		return "c1", "c2"
+	}
+	return "id", "v"
+}
+
+func changeSQLCols(ref, kind string, id int, tag string, null, nh bool) string {
+	cid, cv := colNames(nh)
 	switch kind {
 	case "ins":
-		return fmt.Sprintf("INSERT INTO %s (id, v) VALUES (%d, %s);", ref, id, sqlVal(tag, null))
+		return fmt.Sprintf("INSERT INTO %s (%s, %s) VALUES (%d, %s);", ref, cid, cv, id, sqlVal(tag, null))
 	case "upd":
-		return fmt.Sprintf("UPDATE %s SET v = %s WHERE id = %d;", ref, sqlVal(tag, null), id)
+		return fmt.Sprintf("UPDATE %s SET %s = %s WHERE %s = %d;", ref, cv, sqlVal(tag, null), cid, id)
 	case "updall":
-		return fmt.Sprintf("UPDATE %s SET v = %s;", ref, sqlVal(tag, null))
+		return fmt.Sprintf("UPDATE %s SET %s = %s;", ref, cv, sqlVal(tag, null))
 	}
-	return fmt.Sprintf("DELETE FROM %s WHERE id = %d;", ref, id)
+	return fmt.Sprintf("DELETE FROM %s WHERE %s = %d;", ref, cid, id)
+}
+
+// readSQL is A's single-table read; form 6 asks for no_header through the session flag (set back right after).
+// sfuForm: SELECT FOR UPDATE spells the table as name, file name, absolute path or table object with no_header.
+func sfuForm(form int) int {
+	if form == 5 {
+		return 5
+	}
+	return form % 3
+}
+
+func readSQL(dir string, t, form int, forUpdate bool) string {
+	sql := "SELECT * FROM " + tableRef(dir, t, form)
+	if forUpdate {
+		sql += " FOR UPDATE"
+	}
+	sql += ";"
+	if form == 6 {
+		sql = "SET @@NO_HEADER TO TRUE; " + sql + " SET @@NO_HEADER TO FALSE;"
+	}
+	return sql
 }
 
 func fileText(rows []rowT) string {
@@ -1006,6 +1089,12 @@ func checkHistLimit(c histCase, procLimit time.Duration) (fw.Outcome, *fw.Violat
 		trace = append(trace, line)
 		return r
 	}
+	// after a statement that sets @@NO_HEADER for one read the flag is put back even when the read failed
+	resetFlag := func(form int) {
+		if form == 6 {
+			_ = a.Exec("SET @@NO_HEADER TO FALSE;")
+		}
+	}
 	// the rule that explains the expected rows, for messages and signatures
 	ruleText := map[string]string{
 		"L":  "first load in this transaction: the current file",
@@ -1032,6 +1121,20 @@ func checkHistLimit(c histCase, procLimit time.Duration) (fw.Outcome, *fw.Violat
 		}
 		readInTxn[t], bSinceRead[t] = true, false
 	}
+	// classes of the attribute dimension: how a table loaded with no_header is accessed afterwards
+	attrClass := func(what string, t int, asksNH bool, rule string) {
+		nh := m.C[t] != nil && m.C[t].nh
+		switch {
+		case nh && (rule == "L" || rule == "U"):
+			class("attr:loaded_with_no_header:" + what)
+		case nh && (rule == "R" || rule == "Rx"):
+			class("attr:no_header_table_reloaded_by_first_update_access:" + rule)
+		case nh && !asksNH:
+			class("attr:no_header_table_accessed_with_default_attributes:" + what)
+		case !nh && asksNH:
+			class("attr:header_table_accessed_with_no_header_ignored")
+		}
+	}
 	compare := func(t int, got run.Res, want []mrow, rule, stmt string) *fw.Violation {
 		if got.Err != nil {
 			if failedUpd[t] && (rule == "C" || rule == "S") {
@@ -1043,6 +1146,17 @@ func checkHistLimit(c histCase, procLimit time.Duration) (fw.Outcome, *fw.Violat
 			return fw.V("a_read_shape", "%s returned %d results%s", stmt, len(got.Views), tail())
 		}
 		rows, ok := observed(got.Views[0])
+		nh := m.C[t] != nil && m.C[t].nh
+		c1, c2 := colNames(nh)
+		namesOK := len(got.Views[0].Header) == 2 && got.Views[0].Header[0] == c1 && got.Views[0].Header[1] == c2
+		if !namesOK || (nh && (!ok || !sameRows(rows, want))) {
+			if rule != "L" && rule != "U" {
+				return fw.V("table_shape_changed_in_transaction", "%s in transaction A returned columns %v rows %s; the table was first loaded in this transaction with no_header=%v: expected columns [%s %s] rows %s = %s%s", stmt, got.Views[0].Header, render(rows), nh, c1, c2, render(want), ruleText[rule], tail())
+			}
+			if !namesOK {
+				return fw.V("load_attributes_not_applied", "%s in transaction A returned columns %v; expected [%s %s] (first load, no_header=%v)%s", stmt, got.Views[0].Header, c1, c2, nh, tail())
+			}
+		}
 		if !ok {
 			return fw.V("a_read_shape", "%s returned an unexpected shape: %s%s", stmt, got.Views[0].String(), tail())
 		}
@@ -1076,16 +1190,21 @@ func checkHistLimit(c histCase, procLimit time.Duration) (fw.Outcome, *fw.Violat
 		tn := strconv.Itoa(s.T + 1)
 		atag, btag := fmt.Sprintf("a%d", i), fmt.Sprintf("b%d", i)
 		foreign = m.anyForeign(s)
+		if (s.K == "msel" || s.K == "upd2" || s.K == "insfrom") && (m.nhCached(0) || (nt == 2 && m.nhCached(1))) {
+			// a table loaded with no_header has other column names: not a shape of the two-table statements
+			o.Discard = true
+			return o, nil
+		}
 		if m.anyBlocked(s) {
 			// another transaction holds a table this statement has to fetch from the file
 			var stmt string
 			switch s.K {
 			case "sel":
-				stmt = fmt.Sprintf("SELECT id, v FROM %s;", tableRef(dir, s.T, s.Form))
+				stmt = readSQL(dir, s.T, s.Form, false)
 			case "sfu":
-				stmt = fmt.Sprintf("SELECT id, v FROM %s FOR UPDATE;", tableRef(dir, s.T, s.Form%3))
+				stmt = readSQL(dir, s.T, sfuForm(s.Form), true)
 			case "ins", "upd", "del":
-				stmt = changeSQL(tableRef(dir, s.T, s.Form%3), s.K, s.ID, atag, s.Null)
+				stmt = changeSQLCols(tableRef(dir, s.T, s.Form%3), s.K, s.ID, atag, s.Null, m.nhCached(s.T))
 			default:
 				// a multi-table statement that gets one table and fails on the other: effect on the first not determined
 				o.Discard = true
@@ -1101,6 +1220,9 @@ func checkHistLimit(c histCase, procLimit time.Duration) (fw.Outcome, *fw.Violat
 				cls = run.ErrClass(r.Err)
 			}
 			setWaitA(30 * time.Second)
+			if s.K == "sel" {
+				resetFlag(s.Form)
+			}
 			if r.Err == nil {
 				trace = append(trace, "A: "+stmt+"   -> succeeded")
 				return o, fw.V("a_access_while_other_transaction_holds_table", "%s succeeded in transaction A while another transaction holds %s for update%s", stmt, tableName(s.T), tail())
@@ -1127,13 +1249,15 @@ func checkHistLimit(c histCase, procLimit time.Duration) (fw.Outcome, *fw.Violat
 		}
 		switch s.K {
 		case "sel":
-			stmt := fmt.Sprintf("SELECT id, v FROM %s;", tableRef(dir, s.T, s.Form))
-			want, rule := m.plainRead(s.T)
+			stmt := readSQL(dir, s.T, s.Form, false)
+			want, rule := m.plainReadNH(s.T, s.Form >= 5)
 			r := execA(stmt)
+			resetFlag(s.Form)
 			if v := compare(s.T, r, want, rule, stmt); v != nil {
 				return o, v
 			}
 			class("A.select:" + rule)
+			attrClass("select", s.T, s.Form >= 5, rule)
 			if rule == "L" && prevSet[s.T] && !sameRows(prev[s.T], want) {
 				class("A.select:after_end_sees_current_file_not_old_cache")
 			}
@@ -1145,8 +1269,8 @@ func checkHistLimit(c histCase, procLimit time.Duration) (fw.Outcome, *fw.Violat
 			tok("s" + rule + tn)
 
 		case "sfu":
-			stmt := fmt.Sprintf("SELECT id, v FROM %s FOR UPDATE;", tableRef(dir, s.T, s.Form%3))
-			rule := m.updAccess(s.T)
+			stmt := readSQL(dir, s.T, sfuForm(s.Form), true)
+			rule := m.updAccessNH(s.T, s.Form == 5)
 			if rule == "H" && m.C[s.T].dirty {
 				rule = "Hd"
 			}
@@ -1156,6 +1280,7 @@ func checkHistLimit(c histCase, procLimit time.Duration) (fw.Outcome, *fw.Violat
 				return o, v
 			}
 			class("A.select_for_update:" + rule)
+			attrClass("select_for_update", s.T, s.Form == 5, rule)
 			failedUpd[s.T] = false
 			if rule == "U" && prevSet[s.T] && !sameRows(prev[s.T], want) {
 				class("A.select_for_update:after_end_sees_current_file_not_old_cache")
@@ -1285,9 +1410,12 @@ func checkHistLimit(c histCase, procLimit time.Duration) (fw.Outcome, *fw.Violat
 			tok("u" + rl + rr + tn)
 
 		case "ins", "upd", "del":
-			stmt := changeSQL(tableRef(dir, s.T, s.Form%3), s.K, s.ID, atag, s.Null)
 			rule := m.updAccess(s.T)
+			stmt := changeSQLCols(tableRef(dir, s.T, s.Form%3), s.K, s.ID, atag, s.Null, m.C[s.T].nh)
 			r := execA(stmt)
+			if r.Err != nil && m.C[s.T].nh && rule != "U" {
+				return o, fw.V("table_shape_changed_in_transaction", "%s failed in transaction A: %s %v; the table was first loaded in this transaction with no_header (columns c1, c2) and its shape must not change (%s)%s", stmt, run.ErrClass(r.Err), r.Err, ruleText[rule], tail())
+			}
 			if r.Err != nil {
 				return o, fw.V("a_change_error", "%s failed in transaction A (no other process holds anything): %s %v%s", stmt, run.ErrClass(r.Err), r.Err, tail())
 			}
@@ -1295,6 +1423,7 @@ func checkHistLimit(c histCase, procLimit time.Duration) (fw.Outcome, *fw.Violat
 			cch.rows = edit(cch.rows, s.K, s.ID, atag, s.Null)
 			cch.dirty = true
 			class("A." + s.K + ":" + rule)
+			attrClass("change", s.T, false, rule)
 			failedUpd[s.T] = false
 			prevSet[s.T], bUnloaded[s.T] = false, false
 			tok("d" + rule + tn)
@@ -1577,7 +1706,7 @@ func checkHistLimit(c histCase, procLimit time.Duration) (fw.Outcome, *fw.Violat
 	return o, nil
 }
 
-const ruleDoc = "1-2 CSV tables (id, v; 0-4 rows, NULL cells) and a history of 4-20 steps generated up front: transaction A (one in-process session for the whole history) does SELECT (table spelled as name / file name / absolute path / aliased / CSV() table function), SELECT FOR UPDATE, two-table reads (comma list, CROSS / inner / FULL OUTER JOIN, UNION ALL, NOT IN subquery over the other table; the join and set forms also FOR UPDATE, which holds every table of the query), INSERT, UPDATE, DELETE, UPDATE a, b .. FROM over both tables, INSERT..SELECT from the other table, COMMIT, ROLLBACK; between A's statements other processes B (each a fresh Session+Transaction+Processor on the same directory, 50 ms lock wait) UPDATE/INSERT/DELETE one table, COMMIT through the real file layer and end. Model per table: file contents F and A's cache (none | snapshot, for-update flag, own changes): plain SELECT loads F if nothing is cached, else returns the cache; the first data-changing / FOR UPDATE access to a copy loaded by a plain SELECT reloads F (the documented exception) and holds the table; later reads = snapshot + own changes; COMMIT writes changed tables and empties the cache, ROLLBACK empties it. Every A read is compared with the model as a sequence of rows (text + NULL-ness; two-table joins and unions as a multiset); B must commit iff A does not hold the table for update, else fail with the lock-timeout error 90082 leaving the files byte-identical; at the end the files (read by a new session) equal F. Non-trivial = a successful B commit between two A reads of the same table inside one A transaction; distinct by the compressed sequence of (step kind, model rule, table)"
+const ruleDoc = "1-2 CSV tables (id, v; 0-4 rows, NULL cells) and a history of 4-20 steps generated up front: transaction A (one in-process session for the whole history) does SELECT (table spelled as name / file name / absolute path / aliased / CSV() table function; also with the import attribute no_header, through CSV(',', file, 'UTF8', TRUE) or SET @@NO_HEADER around the statement), SELECT FOR UPDATE, two-table reads (comma list, CROSS / inner / FULL OUTER JOIN, UNION ALL, NOT IN subquery over the other table; the join and set forms also FOR UPDATE, which holds every table of the query), INSERT, UPDATE, DELETE, UPDATE a, b .. FROM over both tables, INSERT..SELECT from the other table, COMMIT, ROLLBACK; between A's statements other processes B (each a fresh Session+Transaction+Processor on the same directory, 50 ms lock wait) UPDATE/INSERT/DELETE one table, COMMIT through the real file layer and end. Model per table: file contents F and A's cache (none | snapshot, for-update flag, own changes): plain SELECT loads F if nothing is cached, else returns the cache; the first data-changing / FOR UPDATE access to a copy loaded by a plain SELECT reloads F (the documented exception) and holds the table; later reads = snapshot + own changes; COMMIT writes changed tables and empties the cache, ROLLBACK empties it. A table keeps the import attributes of its first load in the transaction (loaded with no_header: columns c1, c2, the header line is the first record, also after the reload by the first update access and whatever attributes later statements ask for; written back without a header line at COMMIT). Every A read (SELECT *: column names and rows) is compared with the model as a sequence of rows (text + NULL-ness; two-table joins and unions as a multiset); B must commit iff A does not hold the table for update, else fail with the lock-timeout error 90082 leaving the files byte-identical; at the end the files (read by a new session) equal F. Non-trivial = a successful B commit between two A reads of the same table inside one A transaction; distinct by the compressed sequence of (step kind, model rule, table)"
 
 var assumptions = []string{
 	"other processes act between A's statements (statement-level interleaving); interleavings inside one statement's file-system steps belong to C09",
@@ -1586,6 +1715,8 @@ var assumptions = []string{
 	"SELECT ... FOR UPDATE holds every table its FROM clause (or the operands of its set operator) loads; FOR UPDATE is not combined with subqueries (whether the subquery's table is locked is not documented)",
 	"a cross / inner join with an empty side and a WHERE-subquery over an empty outer table are not generated: they can be answered without loading the other table, and whether it then counts as loaded is not documented",
 	"UPDATE a, b ... FROM addresses at most one record per table (a record joined to several partners is an error in csvq); such cases are not generated",
+	"import attributes: only no_header is varied (table object argument and session flag); the other attributes (delimiter, encoding, without_null, JSON query, fixed-width positions) go through the same FileInfo that the reload reuses. Two-table statements are not generated on tables loaded with no_header (other column names)",
+	"fixed-width files whose delimiter positions were auto-detected at the first load and which another process rewrites with other widths before the reload: the manual only says that the attributes determined when loading are used afterwards, so no expectation is asserted (not generated)",
 	"INSERT appends, UPDATE/DELETE keep the order of the remaining rows (C05's subject) - used only to predict the table after a change",
 }
 
